@@ -9,7 +9,7 @@
    outside the model and are exercised end-to-end on the implementation only (harness/c05*.py). *)
 From Coq Require Import List NArith ZArith Bool.
 From HV Require Import Base.Res Base.Str Base.StrOps Model.AttrCodec Model.WikiCodec Model.Traversal
-     Model.TsvCodec Proofs.AttrCodecProofs Proofs.WikiCodecProofs Proofs.TsvCodecProofs
+     Model.TsvCodec Model.TsvFiles Proofs.TsvFilesProofs Proofs.AttrCodecProofs Proofs.WikiCodecProofs Proofs.TsvCodecProofs
      Proofs.TraversalProofs Proofs.C05Examples.
 Import ListNotations.
 
@@ -129,6 +129,29 @@ Theorem C05_tsv_row_roundtrip : forall (strip_lib : bool) (n : str) (a : attrs) 
   = Ok (n, filter (fun kv => negb (attribute_disallowed_df strip_lib (fst kv))) a, d).
 Proof. exact tsv_row_roundtrip. Qed.
 Print Assumptions C05_tsv_row_roundtrip.
+
+(* A TSV save is a TOTAL OVERWRITE of the section files of its location: Schema2DF always hands the full
+   fixed set of ten tables to save_dataframes, which writes one file per table whatever the table holds, so
+   loading after a save gives exactly what was saved -- for every earlier content of the location (a file
+   left by an earlier save of another schema cannot leak into the reload).  Tied to the code by checking the
+   list of files every save writes (harness clause tsv-file-set) and by save/save/load histories. *)
+Theorem C05_tsv_save_total_overwrite : forall (rows_of : str -> list row) (loc : location),
+  load_dataframes (save_dataframes false (output_tables rows_of) loc) = output_tables rows_of.
+Proof. exact save_total_overwrite. Qed.
+Print Assumptions C05_tsv_save_total_overwrite.
+
+Theorem C05_tsv_files_written_full : forall rows_of : str -> list row,
+  files_written false (output_tables rows_of) = df_suffixes.
+Proof. exact files_written_full. Qed.
+Print Assumptions C05_tsv_files_written_full.
+
+(* not the code: a save that leaves out the file of an empty table is not an overwrite (the reason the
+   full file set matters; a change of save_dataframes in this direction is caught by the harness) *)
+Theorem C05_tsv_skip_empty_variant_refuted :
+  exists rows_of loc,
+    load_dataframes (save_dataframes true (output_tables rows_of) loc) <> output_tables rows_of.
+Proof. exact skip_empty_keeps_old_files. Qed.
+Print Assumptions C05_tsv_skip_empty_variant_refuted.
 
 (* traversal: an unmerged save of a partnered library writes exactly the entries that carry
    inLibrary, in order, and nothing else *)
